@@ -101,5 +101,10 @@ func (b *Stack[T]) WaitSizeIsAbove(threshold int) {
 }
 
 func (b *Stack[T]) SignalShutdown() {
+	// Broadcast while holding the mutex: a PopOrWait that has already evaluated its wait condition but is not parked
+	// yet still holds the mutex (Wait only releases it once the caller is enqueued), so the wake-up cannot be lost.
+	b.mutex.Lock()
+	defer b.mutex.Unlock()
+
 	b.elementAdded.Broadcast()
 }
